@@ -607,7 +607,7 @@ def departure_doc(xml_text, budget=1, tag=''):
 # ------------------------------------------------------------------------------------------------ C14: injection sites
 
 IDENT_DOM = ['Item', 'type', 'Self', 'self', 'async', 'my-name', 'a.b', 'été', 'x*/ fn marker() {} /*', 'y /* z']
-LIT_DOM = ['plain', 'a"b', 'a\\b', 'a\\nb', 'a{b}', '"; fn marker() {} //']
+LIT_DOM = ['plain', 'a"b', 'a\\b', 'a\\nb', 'a{b}', '"; fn marker() {} //', 'see "#anchor"', 'x"#.to_string(), "injected".to_string(), r#"y']
 URI_DOM = ['http://example.com/orders/v1', 'http://example.com/a"b', 'http://example.com/x{y}', 'http://example.com/a+b~c', 'urn:x:"q"']
 URL_DOM = ['http://example.com/orders', 'http://example.com/a"b', 'http://example.com/a\\b', 'http://example.com/{x}',
            # a URL without authority keeps quotes, braces and backslashes verbatim when it is parsed and printed again
@@ -629,13 +629,17 @@ def inject_xsd(tier='quick', active=()):
     fv = _site('site_facet_value', ['3', ABSENT, '3); fn marker() {} //', '-1', 'x', ' 12 ', '+5', '007', '1_000', '0x10', '1e3'], active)
     doc = _site('site_documentation', DOC_DOM, active)
     uri = _site('site_namespace_uri', URI_DOM, active)
+    # a global element that another type refers to with ref=: its name becomes a field name, too
+    rname = _site('site_ref_element_name', ['Remark', 'type', 'match', 'self', 'Loop', 'async'], active)
     st = ST(sname, 'xs:string', {'maxLength': fv}, enums=[ev], doc=doc)
     inner = CT(tname, Seq([El('v', 'xs:string')]))
     tref = smap(lambda n: 't:' + n, tname.sym()) if isinstance(tname, Selector) else 't:' + tname
-    outer = CT('Outer', Seq([El(mname, tref), El('plain', 'xs:int')]), attrs=[Attr(aname, 'xs:string')], doc=doc)
+    rref = smap(lambda n: 't:' + n, rname.sym()) if isinstance(rname, Selector) else 't:' + rname
+    gel = GEl(rname, content=Seq([El('text', 'xs:string')]))
+    outer = CT('Outer', Seq([El(mname, tref), El('plain', 'xs:int'), El(ref=rref)]), attrs=[Attr(aname, 'xs:string')], doc=doc)
     tagged = CT('Tagged', None, attrs=[Attr('k', 'xs:string')], doc=doc)
-    sch = Schema(uri, [st, inner, outer, tagged], prefixes={'t': uri})
-    sels = [x for x in (tname, mname, aname, sname, ev, fv, doc, uri) if isinstance(x, Selector)]
+    sch = Schema(uri, [st, inner, gel, outer, tagged], prefixes={'t': uri})
+    sels = [x for x in (tname, mname, aname, sname, ev, fv, doc, uri, rname) if isinstance(x, Selector)]
     sc = Scenario('inject-xsd:' + '+'.join(x.name[5:] for x in sels), {'a.xsd': sch}, 'a.xsd', sels)
     return sc, Info(sites=sels, literal_sites={'site_enumeration_value', 'site_namespace_uri', 'site_member_name', 'site_attribute_name', 'site_type_name', 'site_simple_type_name'},
                     also_benign={'site_facet_value': [1]})
@@ -662,7 +666,7 @@ def inject_wsdl(tier='quick', active=()):
 def inject_all(tier='quick'):
     out = []
     for grp in (('site_type_name', 'site_simple_type_name'), ('site_member_name', 'site_attribute_name'), ('site_enumeration_value', 'site_facet_value'),
-                ('site_documentation',), ('site_namespace_uri',)):
+                ('site_documentation',), ('site_namespace_uri',), ('site_ref_element_name',)):
         out.append(inject_xsd(tier, grp))
     for grp in (('site_operation_name', 'site_service_name'), ('site_element_name', 'site_header_part_name'), ('site_location', 'site_soap_action')):
         out.append(inject_wsdl(tier, grp))
